@@ -56,11 +56,11 @@ func (env *Env) call(e *spec.Call) Value {
 		if env.frame != nil && env.oldNames == nil {
 			c.names = env.names
 		}
-		n0 := len(env.old.pc)
 		r := c.eval(e.Args[0])
-		// facts learnt about values of the pre-state (allocation stamps, shapes) hold on the current path as well
-		if env.st != env.old {
-			for _, f := range env.old.pc[n0:] {
+		// facts learnt about values of the pre-state (allocation stamps, shapes) hold on the current path as well; the
+		// pre-state may be shared by several paths, so everything learnt since the snapshot was taken is carried over
+		if env.st != env.old && env.old.factBase > 0 && env.old.factBase <= len(env.old.pc) {
+			for _, f := range env.old.pc[env.old.factBase:] {
 				env.st.assume(f)
 			}
 		}
@@ -256,6 +256,19 @@ func (env *Env) call(e *spec.Call) Value {
 			arr := en.heapArr(env.st, vp+l.Path, smt.Ref, smt.ArrayOf(ks, l.Sort))
 			out.L = append(out.L, smt.Select(smt.Select(arr, m.one()), k))
 		}
+		if en.ctx.NoName == 0 {
+			// a value that is present in the map is a valid value of its type, allocated no later than now - and before the
+			// unit started when the map existed then and its values have not been written since
+			en.assumeValidUnder(env.st, has, out)
+			for i, l := range vls {
+				if l.Sort == smt.Ref {
+					key := vp + l.Path
+					if arr := en.heapArr(env.st, key, smt.Ref, smt.ArrayOf(ks, l.Sort)); en.unchangedSinceEntry(env.st, key, arr) {
+						env.st.assume(smt.Implies(smt.And(has, smt.IntBin("<=", en.stamp(m.one()), en.curUnit.entry.clock)), smt.IntBin("<=", en.stamp(out.L[i]), en.curUnit.entry.clock)))
+					}
+				}
+			}
+		}
 		return out
 	case "isfield":
 		// isfield(p, obj, name): the pointer p (e.g. the receiver of an atomic operation) designates field `name` of *obj
@@ -336,10 +349,9 @@ func (env *Env) call(e *spec.Call) Value {
 		if env.frame != nil && env.oldNames == nil {
 			c.names = env.names
 		}
-		n0 := len(c.st.pc)
 		r := c.eval(e.Args[0])
-		if env.st != c.st {
-			for _, f := range c.st.pc[n0:] {
+		if env.st != c.st && c.st.factBase > 0 && c.st.factBase <= len(c.st.pc) {
+			for _, f := range c.st.pc[c.st.factBase:] {
 				env.st.assume(f)
 			}
 		}
